@@ -177,6 +177,14 @@ def parallel_stage(ctx, thorough, protos=None, sflow_filter=None):
                 parts = re.split(r"\n\n", m.group(0))
                 drv_write = any(re.match(r"(WARNING: DATA RACE\n)?(Previous )?[Ww]rite at", pt.strip()) and
                                 "zz_verif" in (re.findall(r"^      (\S+):\d+", pt, re.M) or [""])[0] for pt in parts[:2])
+                if drv_write and "plRecvInto" in (parts[0] + "\n\n" + parts[1] if len(parts) > 1 else parts[0]):
+                    # the driver's write is the receive loop's: the next datagram read into a buffer it took from the pool, while
+                    # somebody still reads that buffer
+                    reader = " / ".join([x.rstrip("()") for x in re.findall(r"^  (github\S*)", m.group(0), re.M) if "plR" not in x and "TestVerif" not in x][:3])
+                    ctx.violation("%s pipeline, 4 workers in parallel: a receive buffer is still read (%s) after it went back to the pool - the receive "
+                                  "loop has taken it from there and is reading the next datagram into it (race detector)" % (proto, reader),
+                                  dict(case, report=m.group(0)[:2500]), key=proto + ":parallel-use-after-put")
+                    continue
                 if drv_write:
                     raise vlib.Infra("the parallel driver itself wrote something the workers read: " + m.group(0)[:1200])
                 ctx.violation("%s pipeline, 4 workers in parallel: the workers share state they write without synchronisation (race detector): %s"
